@@ -45,6 +45,13 @@ def node_rows_go_to_node_file(ctx, r, rid):
             n += 1
             out = ctx.arg_for(s, ap, "output_dir")
             b = ctx.arg_for(s, ap, "batch_id")
+            # one writer per batch: on a multi-node batch every node runs the queue, only the manager node records
+            for node in ctx.nodes_of(f, s.node):
+                forms = guard_forms(ctx, f, node)
+                okm = any(p and fm in ("<AsyncCliCommand._is_manager_node>", "self._is_manager_node") for fm, p in forms)
+                r.check(okm, f"{f.short}: only the manager node of a batch records the result", key_of(f, "result recorded by every node of the batch"), s.loc,
+                        f"`{ctx.src(s.node)[:60]}` is reachable without `self._is_manager_node`: on a multi-node batch every node appends the row, so the job has several rows in the consolidated results "
+                        "and is reported as newly completed more than once", "No row is lost, duplicated")
             ok = out is not None and ctx.src(out) == "self._output" and b is not None and ctx.src(b) == "self._batch_id"
             r.check(ok, f"{f.short}: the row goes to this batch's node file of this output directory", key_of(f, "append target"), s.loc,
                     f"`{ctx.src(s.node)}` writes the row to {'the consolidated file (no batch_id)' if b is None or ctx.src(b) == 'None' else 'batch ' + ctx.src(b)} of {ctx.src(out) if out is not None else None}: "
@@ -62,8 +69,8 @@ def c08_1(ctx, r):
         f"{RA}.clear_results_for_resubmission": "resubmit-jobs only: role held on a complete submission, no concurrent runner/collector",
         f"{RA}.clear_unsuccessful_results": "same as clear_results_for_resubmission (no caller in the tree)",
     }
-    direct = [f for f in cl.methods.values() if "RESULT_WRITE" in ctx.direct_effects(f)]
-    if len(direct) < 4:
+    direct = [f for f in cl.methods.values() if any("RESULT_WRITE" in ctx.site_effects(s2) and "OWN_HOLD" not in ctx.site_effects(s2) for s2 in ctx.cg.sites_in(f))]
+    if len(direct) < 3:
         raise AnalysisError("C08.1", f"only {len(direct)} direct writers of the results file recognised")
     for f, outside in viol:
         if f.short in allow:
@@ -130,42 +137,66 @@ def c08_2(ctx, r):
     r.check(bool(lk) and ctx.src(lk[0].args[0]) == "self._lock_file", "the wrapper locks self._lock_file", key_of(w, "lock object"), w.loc(), "the wrapper does not lock self._lock_file")
 
 
-@rule(P, "C08.3", "T2+T7", "move = read, append to the consolidated file, then delete - the delete is unreachable if the append raised", min_obligations=4)
+@rule(P, "C08.3", "T2+T7", "move = read, append to the consolidated file, then delete - in one hold, the delete unreachable if the append raised", min_obligations=4)
 def c08_3(ctx, r):
-    fn = ctx.fn(f"{RA}._move_results", "C08.3")
-    cfg = ctx.cfg(fn)
-    fcall = [n for n in cfg.nodes for c in cfg.calls_at(n) if isinstance(c.func, ast.Name) and c.func.id in fn.params]
-    dele = [n for s in ctx.cg.sites_in(fn) if "RESULT_DELETE" in ctx.site_effects(s) for n in ctx.nodes_of(fn, s.node)]
-    read = [n for s in ctx.sites(fn, short=f"{RA}._get_results") for n in ctx.nodes_of(fn, s.node)]
-    if not fcall or not dele or not read:
-        raise AnalysisError("C08.3", f"_move_results: read={len(read)} append-callback={len(fcall)} delete={len(dele)}")
-    for d in dele:
-        r.check(dominated_by(ctx, fn, d, fcall, ALL_KINDS), "the append callback dominates the delete on all edges (incl. exceptional)", key_of(fn, "delete before/without append"), fn.loc(d.stmt),
-                "the node results file can be deleted although the rows were not (successfully) appended to the consolidated file: the rows are lost",
-                "No row is lost")
-        r.check(dominated_by(ctx, fn, d, read, ALL_KINDS), "the read dominates the delete", key_of(fn, "delete before read"), fn.loc(d.stmt), "the node file is deleted before it was read")
-    # the delete must not be reachable along an exception edge leaving the append callback
-    dele_ids = {d.id for d in dele}
-    for f in fcall:
-        seen, stack = set(), [d for d, k, _ in f.succ if k == "exc"]
-        while stack:
-            x = stack.pop()
-            if x.id in seen:
-                continue
-            seen.add(x.id)
-            stack.extend(d for d, k, _ in x.succ)
-        r.check(not (seen & dele_ids), "a failed append cannot reach the delete (no finally/handler deletes)", key_of(fn, "delete reachable after failed append"), fn.loc(f.stmt),
-                "if appending to the consolidated file raises (quota, I/O error), the node results file is still deleted: the rows are lost", "No row is lost")
-    for f in fcall:
-        r.check(dominated_by(ctx, fn, f, read, ALL_KINDS), "the read dominates the append", key_of(fn, "append before read"), fn.loc(f.stmt), "rows are appended before they were read")
-        # an exception in the callback must not be swallowed on the way to the delete
-        handlers = [n for n in cfg.nodes if n.kind == "except"]
-        r.check(not handlers, "no handler in _move_results can swallow a failed append", key_of(fn, "handler"), fn.loc(), "_move_results catches exceptions: a failed append can fall through to the delete")
-    r.check(ctx.is_locked_only(fn, "results"), "_move_results runs only under the node file's lock", key_of(fn, "locked-only"), fn.loc(), "_move_results is reachable without the lock")
-    # one hold: move_results passes both through a single wrapper call
-    mv = ctx.fn(f"{RA}.move_results", "C08.3")
-    ws = [s for s in ctx.cg.sites_in(mv) if s.via_wrapper and fn.qual in s.wrapped]
-    r.check(len(ws) == 1 and len(ctx.cg.sites_in(mv)) == 1, "read+append+delete happen in one hold of the node lock", key_of(mv, "single hold"), mv.loc(), "move_results no longer runs _move_results in a single wrapper call")
+    cl = ctx.cls(RA, "C08.3")
+    removers = []   # (function, site, kind)
+    for f in cl.methods.values():
+        for s in ctx.cg.sites_in(f):
+            eff = ctx.site_effects(s)
+            if "RESULT_DELETE" in eff or "RESULT_EMPTY" in eff:
+                removers.append((f, s, "delete" if "RESULT_DELETE" in eff else "empty", "OWN_HOLD" in eff))
+    if not removers:
+        r.bad(key_of(cl.methods["move_results"] if "move_results" in cl.methods else next(iter(cl.methods.values())), "node file never removed"), cl.module.relpath,
+              "no ResultsAggregator method deletes or empties a results file after collecting it: the same rows are collected again by every round", "reported as newly completed to exactly one submitter round")
+        return
+    for fn, s, kind, own in removers:
+        if own:
+            r.bad(key_of(fn, f"{kind} in a lock hold of its own"), s.loc,
+                  f"`{ctx.src(s.node)[:70]}` {kind}s the node file in a separate hold of its lock: a runner that appends between the collector's read and this hold has its row destroyed unread "
+                  "(it is neither consolidated nor reported)", "No row is lost")
+            continue
+        cfg = ctx.cfg(fn)
+        dele = ctx.nodes_of(fn, s.node)
+        fcall = [n for n in cfg.nodes for c in cfg.calls_at(n) if isinstance(c.func, ast.Name) and c.func.id in fn.params]
+        read = [n for s2 in ctx.sites(fn, short=f"{RA}._get_results") for n in ctx.nodes_of(fn, s2.node)]
+        if not fcall or not read:
+            r.bad(key_of(fn, f"{kind} without read+append in the same function"), s.loc,
+                  f"{fn.short} {kind}s the results file but does not itself read it (reads: {len(read)}) and hand the rows to the append callback (calls: {len(fcall)}): read, append and {kind} are not one locked step",
+                  "No row is lost")
+            continue
+        for d in dele:
+            r.check(dominated_by(ctx, fn, d, fcall, ALL_KINDS), "the append callback dominates the delete on all edges (incl. exceptional)", key_of(fn, "delete before/without append"), fn.loc(d.stmt),
+                    "the node results file can be deleted although the rows were not (successfully) appended to the consolidated file: the rows are lost", "No row is lost")
+            r.check(dominated_by(ctx, fn, d, read, ALL_KINDS), "the read dominates the delete", key_of(fn, "delete before read"), fn.loc(d.stmt), "the node file is deleted before it was read")
+        dele_ids = {d.id for d in dele}
+        for f in fcall:
+            seen, stack = set(), [d for d, k, _ in f.succ if k == "exc"]
+            while stack:
+                x = stack.pop()
+                if x.id in seen:
+                    continue
+                seen.add(x.id)
+                stack.extend(d for d, k, _ in x.succ)
+            r.check(not (seen & dele_ids), "a failed append cannot reach the delete (no finally/handler deletes)", key_of(fn, "delete reachable after failed append"), fn.loc(f.stmt),
+                    "if appending to the consolidated file raises (quota, I/O error), the node results file is still deleted: the rows are lost", "No row is lost")
+            r.check(dominated_by(ctx, fn, f, read, ALL_KINDS), "the read dominates the append", key_of(fn, "append before read"), fn.loc(f.stmt), "rows are appended before they were read")
+            handlers = [n for n in cfg.nodes if n.kind == "except"]
+            r.check(not handlers, f"no handler in {fn.name} can swallow a failed append", key_of(fn, "handler"), fn.loc(), f"{fn.name} catches exceptions: a failed append can fall through to the delete")
+        r.check(ctx.is_locked_only(fn, "results"), f"{fn.name} runs only under the node file's lock", key_of(fn, "locked-only"), fn.loc(), f"{fn.name} is reachable without the lock")
+        # one hold: every caller passes it through a single wrapper call and does nothing else with the file
+        for cs in ctx.callers_of(fn):
+            if cs.via_wrapper and fn.qual in cs.wrapped:
+                others = [x for x in ctx.cg.sites_in(cs.fn) if x is not cs and (ctx.site_may(x) & {"RESULT_WRITE", "ACQUIRE_RESULTS"})]
+                r.check(not others, f"{cs.fn.short}: read+append+{kind} happen in one hold of the node lock", key_of(cs.fn, "single hold"), cs.loc,
+                        f"{cs.fn.short} touches the results file / lock again outside the wrapper call that runs {fn.name}: {[ctx.src(x.node.func) for x in others]}")
+        if kind == "empty":
+            # an emptied (not deleted) file still exists: the next append must re-create the header from emptiness
+            ap = ctx.fn(f"{RA}._append_result", "C08.3")
+            hdr_by_tell = any(isinstance(n, ast.Compare) and "tell()" in ctx.src(n) for n in iter_own(ap.node))
+            r.check(hdr_by_tell, "after emptying, the next append re-creates the header (decided by file emptiness)", key_of(fn, "emptied file gets no header"), s.loc,
+                    f"{fn.short} empties the node file instead of deleting it, but _append_result does not decide the header by `tell() == 0`: the first row written after a collection takes the place of the header "
+                    "(one such row is silently dropped, two make the next collection raise)", "No row is lost ... and the consolidated file always parses")
     # the callback appends (mode 'a') to the consolidated file
     cb = ctx.fn(f"{RA}._append_processed_results", "C08.3")
     eff = ctx.direct_effects(cb)
